@@ -259,6 +259,7 @@ def c08(A, ctx, tier):
         return out
     degenerate.r_div(A, ctx, dict(floor=8), where=where, rule="R-DIV-SCORE")
     blockpen.r_deriv_pen_block(A, ctx, dict(floor=180))
+    kernels.r_fixpoint(A, ctx, dict(floor=4))
     ctx.assume("that the regular subdifferential is the right notion at non-convex kinks is a "
                "mathematical fact, not decided")
     return dict(explanation="for every separable penalty and every order region of w_j the "
@@ -320,6 +321,9 @@ def c20(A, ctx, tier):
     extents.r_slice(A, ctx, dict(floor=12))
     extents.r_bounds(A, ctx, dict(floor=30))
     extents.r_argkind(A, ctx, dict(floor=60))
+    kernels.r_fixpoint(A, ctx, dict(floor=4), rule="R-FIXPOINT-BOUNDS")
+    kernels.r_kernel_eq(A, ctx, dict(floor=40), rule="R-KERNEL-BOUNDS")
+    kernels.r_csc_helpers(A, ctx, dict(floor=16), rule="R-CSC-BOUNDS")
     misc.r_initialize(A, ctx, dict(floor=6))
     ctx.assume("value-dependent indices (entries of user-supplied grp_indices / CSC indices being "
                "in range) are an input contract and not decided")
